@@ -8,7 +8,7 @@ from sa.emit import Elem, Rep, walk_elems
 from sa.flow import show, sig, subterms
 from sa.model import AnalysisError, norm, parent, walk_no_nested
 
-from .common import alts, callers_of, commands, is_call, is_plain_iter, prov, unshipped_modules
+from .common import include_rules, alts, callers_of, commands, is_call, is_plain_iter, prov, unshipped_modules
 from .xmlcommon import documents
 
 CTX = "ascmhl.hasher.DirectoryHashContext"
@@ -238,6 +238,9 @@ def run(report, p):
         okr = deps == [("is_directory_structure == False", "F")] or deps == [("is_directory_structure", "T")] or deps == [("not is_directory_structure", "F")]
     r6.check(okr, rd, st[0] if st else rd.node, "the reader does not assign the text under <structure> to the structure digest of the matching entry", construct="reader structure")
 
+    # ---- rules shared with other properties (same mechanism, same rule, reported under every property it can break)
+    include_rules(report, p, 'c02', ['R2.1'], 'directory hashes are evaluated over exactly the traversed (non-ignored) entries')
+    include_rules(report, p, 'c01', ['R1.3', 'R1.4'], "digests are decoded to bytes by the format's own codec")
     report.not_decided += ["numeric equality with an independent evaluation of the definition on concrete trees", "rename / content-edit relations at run time"]
 
 
